@@ -51,6 +51,10 @@ CLAIMS = {
          "4 C14"),
 }
 NA = {
+ "C02": "relational across three differently backed roots; the part that differs between the strategies (regField lookup, reflect.Value.Call, struct field reads) is reflect semantics for which the verifier has only trusted stubs, so 'same response' cannot be stated as a contract on one call (DESIGN.md section 11.6)",
+ "C07": "writer / envelope contracts not reached yet (build in progress; DESIGN.md section 11.3)",
+ "C15": "lexical pairing contracts depend on the C18 writer contracts, not reached yet (DESIGN.md section 11.3)",
+ "C18": "writer / reader step contracts not reached yet (build in progress; DESIGN.md section 11.3)",
  "C16": "relational over orderings/partitions of whole loads: a function contract speaks about one call, and deriving the relation needs a functional grammar specification of the whole single-pass SDL parser (DESIGN.md section 4, C16)",
 }
 checks=[]
